@@ -37,7 +37,7 @@ def run_mode(ck, build, kinds, rulemap, helper_fns=True, floor_obl=300):
             ab_broken = None
             if "SMALL" in rulemap:
                 try:
-                    n += aeadlib.check_absorb_small(ck, mod, ks, label, rulemap)
+                    n += aeadlib.check_absorb_small(ck, mod, ks, label, rulemap, maxlen=(200 if getattr(ck, 'tier', 'quick') == 'thorough' else 100))
                 except Broken as e:
                     ab_broken = e
             snap = ck.snapshot()
@@ -55,7 +55,7 @@ def run_mode(ck, build, kinds, rulemap, helper_fns=True, floor_obl=300):
         if "SMALL" in rulemap or "SMALLIO" in rulemap or "SMALLMEM" in rulemap:
             # shape-independent: every message length up to 40 as straight paths (refutes whatever the loops look like)
             try:
-                n += aeadlib.check_cipher_small(ck, mod, f, label, rulemap)
+                n += aeadlib.check_cipher_small(ck, mod, f, label, rulemap, maxlen=(200 if getattr(ck, 'tier', 'quick') == 'thorough' else 100))
             except Broken as e:
                 small_broken = e
         nviol = len(ck.violations)
